@@ -18,6 +18,19 @@ FINDINGS_FILE = os.path.join(VERIF, 'known_findings.json')
 sys.dont_write_bytecode = True
 
 
+def install_arena_cache():
+    """Performance aid only (see native/arena_cache.c); silently skipped when not built."""
+    import ctypes
+    so = os.path.join(VERIF, 'build', 'libarena_cache.so')
+    if os.path.exists(so) and not os.environ.get('VERIF_NO_ARENA_CACHE'):
+        try:
+            ctypes.PyDLL(so).ac_install()
+            return True
+        except OSError:
+            return False
+    return False
+
+
 def import_repo():
     """Make /repo importable in place (no copy, no bytecode)."""
     if REPO not in sys.path:
